@@ -7,7 +7,7 @@ namespace DoitModel.Run.Dyn
     not say `run` -/
 theorem first_pass_notR1 {inp : RunInput} {s : Sys} {n : Name} {nd : Node} (hD : InvE inp s) (hN : InvN inp s)
     (h2 : Inv2 inp s) (hdc : AllDC inp s) (hsusp : s.susp = some (.node n)) (hn : s.nodes n = some nd)
-    (h0 : nd.status = .none)
+    (h0 : nd.status = .none) (hdf : DelivF inp s nd)
     (hfin : (selStatus (selDecision inp n nd)).finished = true) (hs : inp.setup n ≠ []) : ¬ R1 inp n := by
   have hS := hN n nd hn
   obtain ⟨nd', hn', hpc⟩ := h2.inv1.sp n hsusp
@@ -16,7 +16,7 @@ theorem first_pass_notR1 {inp : RunInput} {s : Sys} {n : Name} {nd : Node} (hD :
     rcases hpc with e | e
     · exact e
     · exact absurd h0 (hS.2 (by rw [e]; rfl))
-  have sd : SelDeps inp s n nd := sel_deps hD hN h2.inv1 hdc hn (by rw [hpc1]; rfl) (by rw [hpc1]; rfl)
+  have sd : SelDeps inp s n nd := sel_deps hD hN h2.inv1 hdc hn (by rw [hpc1]; rfl) (by rw [hpc1]; rfl) hdf
   have key := first_pass_key hN hn sd hpc1 h0
   intro r
   have h1 := r1_now sd r
@@ -40,7 +40,7 @@ theorem invP2_status {inp : RunInput} {s s' : Sys} {n : Name} {nd : Node} (st' :
 
 theorem invP2_select {inp : RunInput} {s s' : Sys} {n : Name} {nd : Node} (hD : InvE inp s) (hN : InvN inp s)
     (h2 : Inv2 inp s) (hdc : AllDC inp s) (haw : awaiting s) (hsusp : s.susp = some (.node n)) (hn : s.nodes n = some nd)
-    (h : InvP2 inp s)
+    (h : InvP2 inp s) (hdf : DelivF inp s nd)
     (e : s'.nodes = (setNode s n { nd with status := selStatus (selDecision inp n nd) }).nodes) : InvP2 inp s' := by
   obtain ⟨nd', hn', hpc⟩ := h2.inv1.sp n hsusp
   rw [hn] at hn'; cases hn'
@@ -52,7 +52,7 @@ theorem invP2_select {inp : RunInput} {s s' : Sys} {n : Name} {nd : Node} (hD : 
       rcases hpc with a | a
       · exact a
       · rcases hp' with b | b <;> (rw [a] at b; cases b)
-    exact first_pass_notR1 hD hN h2 hdc hsusp hn (h2.sel1 haw n nd hsusp hn hpc1) hfin hs
+    exact first_pass_notR1 hD hN h2 hdc hsusp hn (h2.sel1 haw n nd hsusp hn hpc1) hdf hfin hs
   · intro todo hp
     have hp' : nd.pc = .setupIter todo := hp
     rcases hpc with a | a <;> (rw [a] at hp'; cases hp')
@@ -88,11 +88,15 @@ theorem stepKind_invP2 {inp : RunInput} {s s' : Sys} {perm : List Name} (hD : In
     (h : InvP2 inp s) (k : StepKind inp s s' perm) : InvP2 inp s' := by
   rcases k with ⟨a, b⟩ | ⟨n, nd, a, b, c, _, e⟩ | ⟨n, nd, a, b, c, e⟩ | ⟨a, b⟩
   · exact dtick_invP2 h2.inv1 ha4 a h b
-  · exact invP2_select hD.den hD.nodeS h2 hG.dc a b c h e
+  · have hl : nd.pc.inLoop = false := by
+      obtain ⟨nd', hn', hpc⟩ := h2.inv1.sp n b
+      rw [c] at hn'; cases hn'
+      rcases hpc with e' | e' <;> (rw [e']; rfl)
+    exact invP2_select hD.den hD.nodeS h2 hG.dc a b c h (hD.delivF h2.inv1 c hl) e
   · exact invP2_result h3 a b c h e
   · exact h.back a b
 
-theorem reach_invP2 {inp : RunInput} [NoFailDeliver inp] {s : Sys} (h : Reach inp s) : InvP2 inp s := by
+theorem reach_invP2 {inp : RunInput} {s : Sys} (h : Reach inp s) : InvP2 inp s := by
   induction h with
   | init => intro n nd hn; simp [init] at hn
   | @next s0 s1 c hr hs ih =>
@@ -103,7 +107,7 @@ theorem reach_invP2 {inp : RunInput} [NoFailDeliver inp] {s : Sys} (h : Reach in
     | take w => cases hs
     | done w => cases hs
 
-theorem preach_invP2 {inp : RunInput} [NoFailDeliver inp] {s : Sys} (h : PReach inp s) : InvP2 inp s := by
+theorem preach_invP2 {inp : RunInput} {s : Sys} (h : PReach inp s) : InvP2 inp s := by
   induction h with
   | init => intro n nd hn; simp [init] at hn
   | @next s0 s1 c hr hs ih =>
